@@ -25,7 +25,7 @@ from mc.ref import flags as F
 
 ID = "C04"
 LEVEL = "exploration"
-BUDGET = {"quick": 150, "thorough": 1100}
+BUDGET = {"quick": 150, "thorough": 900}
 CHUNK = 16
 RULE = (
     "one case = one observed pandora.run of (scene, post-disparity pipeline); one evaluation = one (step, side) "
@@ -47,6 +47,8 @@ ASSUMPTIONS = [
     "pixels are filled (C14)",
     "median_for_intervals (bit 11) and multiscale are not in the menu; aggregation / confidence steps are not inserted "
     "before the disparity step",
+    "quick tier, window 3, pairs of mask cells: two of the four {nodata, invalid} x {nodata, invalid} value "
+    "combinations per pair of cells (rotated with VERIF_SEED); all four in the thorough tier and for window 1",
     "quick tier: pipelines up to 3 post-disparity steps over the 7-entry menu plus length 4 over the 5-entry menu "
     "{vfit, median, cross-checking x3}; thorough: length 4 over 7 entries plus length 5 over 5 entries",
 ]
@@ -90,6 +92,10 @@ def level0(tier, seed):
                 for dmin in range(-lim, lim + 1):
                     for dmax in range(dmin, lim + 1):
                         out.append(_case(_scene(ny, nx, win, subpix, dmin, dmax, i, seed), i, 0))
+                        if win == 1 and subpix == 1 and (ny, nx) == shapes(1)[0]:
+                            # repeated validation on the smallest scenes (keeps the witnesses of repeated-step defects small)
+                            for post in ("vm-vm", "vs-vs"):
+                                out.append({"scene": _scene(ny, nx, win, subpix, dmin, dmax, i, seed), "post": post, "lvl": 0})
                         i += 1
     return out
 
@@ -152,8 +158,10 @@ def level2(tier, seed):
         ny, nx = (3, 5) if win == 1 else ((4, 6) if tier == "quick" else (5, 7))
         cells = [(s, r, c) for s in ("lmask", "rmask") for r in range(ny) for c in range(nx)]
         ivs = [(-2, 2), (1, 2)] if win == 1 else ([(-2, 1)] if tier == "quick" else [(-2, 1), (1, 2)])
-        for (s1, r1, c1), (s2, r2, c2) in itertools.combinations(cells, 2):
-            for v1, v2 in ((1, 1), (1, 2), (2, 1), (2, 2)):
+        combos = ((1, 1), (1, 2), (2, 1), (2, 2))
+        for j, ((s1, r1, c1), (s2, r2, c2)) in enumerate(itertools.combinations(cells, 2)):
+            # quick tier, window 3: each pair of cells gets two of the four value combinations, rotated with the seed
+            for v1, v2 in (combos[(j + seed) % 2::2] if (tier == "quick" and win == 3) else combos):
                 for (dmin, dmax) in ivs:
                     kw = {"lmask": [], "rmask": []}
                     kw[s1].append([r1, c1, v1])
